@@ -696,12 +696,17 @@ class PlanJoinTablesQuery:
         if query_in.using is not None:
             model_params = {}
             for param, value in query_in.using.items():
-                if '.' in param:
-                    alias = param.split('.')[0]
-                    if (alias.lower(),) in item.aliases:
-                        new_param = '.'.join(param.split('.')[1:])
-                        model_params[new_param.lower()] = value
+                # 'name.option': the option is for the table of the query with this name (alias or name with
+                #   or without namespace). Other dots are a part of the option: it is for every model
+                parts = param.split('.')
+                for i in range(len(parts) - 1, 0, -1):
+                    table_info = self.tables_idx.get(tuple(map(str.lower, parts[:i])))
+                    if table_info is not None:
+                        param = '.'.join(parts[i:])
+                        break
                 else:
+                    table_info = item
+                if table_info is item:
                     model_params[param.lower()] = value
 
             partition_size = model_params.pop('partition_size', None)
